@@ -50,6 +50,7 @@ class Model:
         self.maxbound = {}         # device id -> largest memoryAllocated the model allows so far
         self.maxseen = {}          # device id -> largest value observed after any op
         self.internal = {}         # internal handles, e.g. ("cur", device id) = the device's current stream
+        self.undefined = None      # set when an operation has undefined behaviour by the API's own rules (overlapping memcpy)
 
     # ---------------------------------------------------------------- object graph
     def new(self, kind, **kw):
@@ -227,7 +228,7 @@ def apply(m, op):
         d = I(1)
         if not P["D"][d]:
             return Expect("skip")
-        dev = m.new("dev", mode=op[2], alloc=0)
+        dev = m.new("dev", mode=op[2], alloc=0, mem_use_host=(len(op) > 3 and op[3] == "1"))
         m.maxbound[dev.id] = 0
         m.maxseen[dev.id] = 0
         st = m.new("strm", dev=dev)
@@ -246,6 +247,7 @@ def apply(m, op):
             return Expect("exc", name + " on uninitialized device")
         if name == "malloc":
             entries, dt, h, useh = I(3), op[4], I(5), I(6)
+            useh = useh or (1 if dev.mem_use_host else 0)      # device-level memory/use_host_pointer default
             if entries == 0:
                 m.attach(("M", t), None)
                 return Expect("ok")
@@ -300,6 +302,11 @@ def apply(m, op):
         if not (P["K"][k] and P["M"][a] and P["M"][b]):
             return Expect("skip")
         kk, va, vb = m.slot["K"][k], m.slot["M"][a], m.slot["M"][b]
+        if kk is None or va is None or vb is None or va.dtype != "int" or vb.dtype != "int" or 4 * n > va.size or 4 * n > vb.size or n < 0:
+            m.undefined = "kernel run outside the generator's contract (C10 judges argument validation)"
+            return Expect("either")
+        if va is not vb and va.storage is vb.storage and overlap(va.base, va.base + 4 * n, vb.base, vb.base + 4 * n):
+            m.undefined = "kernel arguments partially overlap"
         # the generator only emits runs the rule accepts (C10 is about the rest)
         for i in range(n):
             x = int.from_bytes(va.storage.data[va.base + 4 * i:va.base + 4 * i + 4], "little", signed=True)
@@ -381,6 +388,8 @@ def apply(m, op):
         dob, sob = DT[dst.dtype] * doff, DT[src.dtype] * soff
         if doff < 0 or soff < 0 or sob + nbytes > src.size or dob + nbytes > dst.size:
             return Expect("exc", "copy out of range")
+        if nbytes and dst.storage is src.storage and overlap(dst.base + dob, dst.base + dob + nbytes, src.base + sob, src.base + sob + nbytes):
+            m.undefined = "device-to-device copy between overlapping ranges of one buffer (memcpy)"
         d = src.storage.data[src.base + sob:src.base + sob + nbytes]
         kn = src.storage.known[src.base + sob:src.base + sob + nbytes]
         m.write(dst.storage, dst.base + dob, d, kn)
@@ -400,6 +409,10 @@ def apply(m, op):
         ob = dsz * off
         if off < 0 or ob + nbytes > v.size:
             return Expect("exc", "copy out of range")
+        if nbytes and v.storage is m.H[h] and overlap(v.base + ob, v.base + ob + nbytes, hoff, hoff + nbytes):
+            m.undefined = "host<->device copy between overlapping ranges of one host array (memcpy)"
+        if hoff < 0 or hoff + nbytes > HBYTES:
+            m.undefined = "host range outside the harness array"
         if name == "copyHM":
             d = m.H[h].data[hoff:hoff + nbytes]
             kn = m.H[h].known[hoff:hoff + nbytes]
